@@ -232,6 +232,14 @@ def rule_bind(ctx):
 
 
 def run(ctx):
+    from .. import beliefs
+    ctx.rule('C17.absent', 'ids, indexes and targets are defaulted only when they are None: 0 is the root node, the first bus and the first buffer')
+    beliefs.rule_ordefault(ctx, 'C17.absent', ['sc3.synth.node', 'sc3.synth.buffer', 'sc3.synth.bus', 'sc3.synth.server'],
+                           exceptions={'sc3.synth.node:Node.move_to_head:target or ...': 'a Node object, never a number (as_target is not applied here)',
+                                       'sc3.synth.node:Node.move_to_tail:target or ...': 'a Node object, never a number (as_target is not applied here)'})
+    bn = ctx.repo.cls('sc3.synth.node:Node').methods['basic_new']
+    ctx.ob('C17.absent', f'{bn.fq}:node_id', 'obj.node_id = obj.server._next_node_id() if node_id is None else node_id' in full(bn.node),
+           'a node id is allocated only when none was given (0 is the root node)', bn.node, bn.module)
     rule_cmds(ctx)
     rule_guard(ctx)
     rule_pair(ctx)
@@ -241,6 +249,8 @@ def run(ctx):
 
 
 MUTANTS = [
+    dict(rule='C17.absent', name='node id 0 replaced by a fresh id (seed C17-c)', file='sc3/synth/node.py',
+         old="        obj.node_id = obj.server._next_node_id() if node_id is None else node_id", new="        obj.node_id = node_id or obj.server._next_node_id()"),
     dict(rule='C17.cmds', name='/s_new with three fixed arguments', file='sc3/synth/node.py',
          old="cls.add_actions[add_action], target.node_id,\n", new="cls.add_actions[add_action],\n", count=1),
     dict(rule='C17.cmds', name='command name typo', file='sc3/synth/node.py',
